@@ -1,6 +1,110 @@
-//! C10 has no case language of its own (see tools/props/c10.py): the hooks inside the unchecked
-//! accessors are active for every property's cases.
+//! C10 own cases: panic injection into user closures / iterators of mutating calls, followed by
+//! continued use of the surviving object (see coq/theories/Run/RunC10.v). Every other C10
+//! workload is another property's case replayed with the hooks on (tools/props/c10.py).
+use crate::guarded;
 use crate::sx::*;
-pub fn run(_args: &[Sx]) -> Sx {
-    bad_case()
+use easy_ml::matrices::Matrix;
+use easy_ml::tensors::Tensor;
+use std::cell::Cell;
+
+fn dump_matrix(m: &Matrix<i64>, panicked_flag: bool) -> Sx {
+    let (rows, cols) = m.size();
+    // every element through the checked getter, then the iterators (unchecked access, hooks on)
+    let checked = guarded(|| {
+        let mut v = vec![];
+        for r in 0..rows {
+            for c in 0..cols {
+                v.push(m.get(r, c));
+            }
+        }
+        v
+    });
+    let Some(checked) = checked else { return l(vec![z(-8), z(1001)]) };
+    let Some(iterated) = guarded(|| m.row_major_iter().collect::<Vec<_>>()) else { return l(vec![z(-8), z(1002)]) };
+    let Some(columns) = guarded(|| m.column_major_iter().count()) else { return l(vec![z(-8), z(1003)]) };
+    if iterated != checked || columns != checked.len() {
+        return inconsistent(1004);
+    }
+    l(vec![boolean(panicked_flag), z(rows), z(cols), l(checked.into_iter().map(z).collect())])
+}
+
+struct PanickingIter {
+    vals: std::vec::IntoIter<i64>,
+    calls: usize,
+    k: usize,
+}
+impl Iterator for PanickingIter {
+    type Item = i64;
+    fn next(&mut self) -> Option<i64> {
+        if self.calls == self.k {
+            panic!("injected iterator panic");
+        }
+        self.calls += 1;
+        self.vals.next()
+    }
+}
+
+pub fn run(args: &[Sx]) -> Sx {
+    let Some(op) = args.first().and_then(|x| x.i64()) else { return bad_case() };
+    match (op, args.len()) {
+        (1, 4) | (2, 4) => {
+            let (Some(rows), Some(cols), Some(k)) = (args[1].usize(), args[2].usize(), args[3].usize()) else { return bad_case() };
+            if rows == 0 || cols == 0 || rows * cols > 4096 {
+                return bad_case();
+            }
+            let mut m = Matrix::from_flat_row_major((rows, cols), (0..(rows * cols) as i64).collect());
+            let calls = Cell::new(0usize);
+            let f = |x: i64| {
+                if calls.get() == k {
+                    panic!("injected closure panic");
+                }
+                calls.set(calls.get() + 1);
+                x + 1000
+            };
+            let r = if op == 1 { guarded(|| m.map_mut(f)) } else { guarded(|| m.map_mut_with_index(|x, _, _| f(x))) };
+            dump_matrix(&m, r.is_none())
+        }
+        (3, 6) | (4, 6) => {
+            let (Some(rows), Some(cols), Some(pos), Some(vals), Some(k)) =
+                (args[1].usize(), args[2].usize(), args[3].usize(), args[4].i64s(), args[5].usize())
+            else {
+                return bad_case();
+            };
+            if rows == 0 || cols == 0 || rows * cols > 4096 {
+                return bad_case();
+            }
+            let mut m = Matrix::from_flat_row_major((rows, cols), (0..(rows * cols) as i64).collect());
+            let it = PanickingIter { vals: vals.into_iter(), calls: 0, k };
+            let r = if op == 3 { guarded(|| m.insert_row_with(pos, it)) } else { guarded(|| m.insert_column_with(pos, it)) };
+            dump_matrix(&m, r.is_none())
+        }
+        (5, 3) | (6, 3) => {
+            let (Some(lens), Some(k)) = (args[1].usizes(), args[2].usize()) else { return bad_case() };
+            fn go<const D: usize>(lens: &[usize], k: usize, with_index: bool) -> Sx {
+                let shape: [(&'static str, usize); D] = std::array::from_fn(|d| (dim(d), lens[d]));
+                let n: usize = lens.iter().product();
+                let mut t = Tensor::from(shape, (0..n as i64).collect());
+                let calls = Cell::new(0usize);
+                let f = |x: i64| {
+                    if calls.get() == k {
+                        panic!("injected closure panic");
+                    }
+                    calls.set(calls.get() + 1);
+                    x + 1000
+                };
+                let r = if with_index { guarded(|| t.map_mut_with_index(|_, x| f(x))) } else { guarded(|| t.map_mut(f)) };
+                let Some(vals) = guarded(|| t.iter().collect::<Vec<_>>()) else { return l(vec![z(-8), z(1010)]) };
+                let Some(refs) = guarded(|| t.iter_reference().copied().collect::<Vec<_>>()) else { return l(vec![z(-8), z(1011)]) };
+                if vals != refs || t.shape() != shape {
+                    return inconsistent(1012);
+                }
+                l(vec![boolean(r.is_none()), l(vals.into_iter().map(z).collect())])
+            }
+            if lens.iter().any(|&x| x == 0) || lens.iter().product::<usize>() > 4096 {
+                return bad_case();
+            }
+            crate::with_d!(lens.len(), go(&lens, k, op == 6))
+        }
+        _ => bad_case(),
+    }
 }
